@@ -818,6 +818,14 @@ func (m *endpointManager) resolveWorkloadEndpoints() {
 					}).Info("New endpoint has same iface name as existing")
 					if wlIdsAscending(&existingId, &id) {
 						logCxt.Info("Existing endpoint takes preference")
+						if oldWorkload != nil {
+							// This endpoint was active (necessarily on a different interface
+							// name) and now becomes shadowed: remove the state that it
+							// programmed and let a shadowed endpoint take over its old name.
+							removeActiveWorkload(logCxt, oldWorkload, id)
+							m.epIDsToUpdateStatus.Add(id)
+							promoteShadowedEndpoint(logCxt, oldWorkload.Name)
+						}
 						m.shadowedWlEndpoints[id] = workload
 						delete(m.pendingWlEpUpdates, id)
 						continue
